@@ -66,4 +66,8 @@ CLAIMED["C04"] = dict(
   text="Generated programs (all operations, calling styles, devices, register kinds; EOM/DMM/SLM/XY) rebuilt from their successful calls, plus parametrized variants with assignments: to_abstract_repr succeeds, own jsonschema validation, decoded sequence equal by canonical snapshot (device field by field, register, timeline, pulses, phase trackers, measurement, SLM, field), built sequences equal for every assignment, idempotent encoding; the same for the legacy codec on built-in and virtual devices. Exploration.",
   note="Trusted: jsonschema and the schema files; Python json float round trip. Call logs and channel order are not compared. Non-exportable constructs excluded by construction (variable CustomWaveform samples, interpolator kwargs).",
   technique="property-based testing: generated programs, round-trip oracle on canonical snapshots + independent schema validation")
+CLAIMED["C18"] = dict(
+  text="Generated programs on a generated device A and a device B derived by mutating any subset of channel parameters, ids, order, reusability; strict -> raises or identical timeline and samples; non-strict -> raises or the result passes the C01 limit and C02 timeline oracles on B; switch_register with moved atoms -> identical timeline. Exploration.",
+  note="Trusted: the C01/C02 oracles in pv.history. DMM channels are matched by declaration position (their names derive from device ids).",
+  technique="property-based testing: generated programs and device pairs, metamorphic relation between original and switched sequence")
 NOT_YET = {}
